@@ -87,6 +87,15 @@ def c07_1(rep, ix):
     init = ix.func("listener.BlackbirdListener.__init__")
     st = [n for n in walk_shallow(init.node) if isinstance(n, ast.Assign) and u(n.targets[0]) == "self._cwd"]
     direct = [n for n in st if n in init.node.body and isinstance(n.value, ast.Name) and n.value.id == "cwd"]
+
+    def cond_form(v):
+        """cwd if cwd is not None else os.getcwd()  (either orientation)"""
+        if not isinstance(v, ast.IfExp):
+            return False
+        t, a, b = " ".join(u(v.test).split()), u(v.body), u(v.orelse)
+        return (t in ("cwd is None", "cwd == None", "not cwd") and (a, b) == ("os.getcwd()", "cwd")) or (t in ("cwd is not None", "cwd != None", "cwd") and (a, b) == ("cwd", "os.getcwd()"))
+    if not direct and len(st) == 1 and st[0] in init.node.body and cond_form(st[0].value):
+        direct = list(st)          # one conditional expression: the given directory, or the working directory when none was given
     rep.check(len(direct) == 1, R, ix.site(init), "self._cwd is bound to the constructor argument cwd", key="init|cwd")
     for n in st:
         if n in direct:
